@@ -2147,3 +2147,126 @@ pub fn build_order_stress(raw: u64) -> AppSpec {
     }
     AppSpec { peel: false, types, n_errs: 0, comps, bp, note: "ordering stress".into() }
 }
+
+// ------------------------------------------------------------------------------------------
+// Borrow-checker stress (C01, C09; a "wild" family: nothing is asserted about the verdict, what is accepted must
+// compile, and the compiler must reach a verdict). One call graph that needs all three passes of the compiler's
+// borrow checker at once:
+//  * 0-3 independent "X" patterns: `c(B, &A)` and `d(A, &B)` - no evaluation order satisfies both, a clone of `A` or
+//    `B` has to break the tie (each of the two is clone-if-necessary or not, independently for every pattern);
+//  * 1-2 capture chains: a value, a view of it (`V<'a>` holding `&'a A`), 1-3 holders that take the previous link by
+//    value, every link with an optional extra input that is reached at another depth of the graph (so that nodes are
+//    not met in dependency order), and a consumer that takes the last link together with the source, by value or by
+//    reference;
+//  * registrations in a generated order (node numbering follows it).
+// ------------------------------------------------------------------------------------------
+
+pub fn build_borrow_stress(raw: u64) -> AppSpec {
+    let mut s = raw | 1;
+    let mut next = move || {
+        s ^= s << 13;
+        s ^= s >> 7;
+        s ^= s << 17;
+        (s >> 9) as usize
+    };
+    let mk = |inputs: Vec<(usize, Mode)>, cin: bool, view_of: Option<usize>| TypeSpec {
+        life: Life::Request,
+        is_clone: cin,
+        is_copy: false,
+        clone_if_necessary: if cin { Some(true) } else { None },
+        inputs,
+        fallible: None,
+        is_async: false,
+        variants: 1,
+        send_sync: true,
+        prebuilt: false,
+        attr_life: None,
+        attr_clone: None,
+        allow_unused: false,
+        v1_flip: false,
+        view_of,
+        specific_eh: None,
+        imported: false,
+    };
+    let mut types: Vec<TypeSpec> = vec![];
+    let mut outputs: Vec<(usize, Mode)> = vec![];
+    let n_x = next() % 4;
+    for _ in 0..n_x {
+        let a = types.len();
+        types.push(mk(vec![], next() % 2 == 0, None));
+        types.push(mk(vec![], next() % 4 == 0, None));
+        let b = a + 1;
+        let (c_in, d_in) = if next() % 2 == 0 { (vec![(b, Mode::Move), (a, Mode::Ref)], vec![(a, Mode::Move), (b, Mode::Ref)]) } else { (vec![(a, Mode::Ref), (b, Mode::Move)], vec![(b, Mode::Ref), (a, Mode::Move)]) };
+        types.push(mk(c_in, false, None));
+        types.push(mk(d_in, false, None));
+        for t in [a + 2, a + 3] {
+            outputs.push((t, if next() % 3 == 0 { Mode::Ref } else { Mode::Move }));
+        }
+    }
+    let n_chains = if n_x == 0 { 1 + next() % 2 } else { next() % 3 };
+    for _ in 0..n_chains {
+        let src = types.len();
+        types.push(mk(vec![], next() % 3 == 0, None));
+        // an unrelated value that links of the chain may borrow: it is a source of the graph, so whoever borrows it is
+        // reached early by a breadth-first walk, whatever its other inputs are
+        let shallow = types.len();
+        types.push(mk(vec![], false, None));
+        let with_extra = |base: (usize, Mode), r: usize| -> Vec<(usize, Mode)> {
+            match r % 4 {
+                0 => vec![(shallow, Mode::Ref), base],
+                1 => vec![base, (shallow, Mode::Ref)],
+                _ => vec![base],
+            }
+        };
+        let mut last = types.len();
+        types.push(mk(with_extra((src, Mode::Ref), next()), false, Some(src)));
+        for _ in 0..(1 + next() % 3) {
+            let h = types.len();
+            types.push(mk(with_extra((last, Mode::Move), next()), false, Some(last)));
+            last = h;
+        }
+        let src_mode = if next() % 3 == 0 { Mode::Ref } else { Mode::Move };
+        let last_mode = if next() % 3 == 0 { Mode::Ref } else { Mode::Move };
+        if next() % 2 == 0 {
+            outputs.push((last, last_mode));
+            outputs.push((src, src_mode));
+        } else {
+            outputs.push((src, src_mode));
+            outputs.push((last, last_mode));
+        }
+        if next() % 4 == 0 {
+            outputs.push((shallow, Mode::Ref));
+        }
+    }
+    for i in (1..outputs.len()).rev() {
+        if next() % 3 == 0 {
+            outputs.swap(i, next() % (i + 1));
+        }
+    }
+    let n = types.len();
+    let mut order: Vec<usize> = (0..n).collect();
+    for i in (1..n).rev() {
+        if next() % 2 == 0 {
+            order.swap(i, next() % (i + 1));
+        }
+    }
+    let mut bp: Vec<Reg> = order.into_iter().map(|t| Reg::Ctor { ty: t, variant: 0 }).collect();
+    let mut comps = vec![];
+    if next() % 3 == 0 {
+        // a pre-processing middleware that borrows some of the values the handler consumes
+        let inputs: Vec<(usize, Mode)> = outputs.iter().filter(|(t, _)| types[*t].view_of.is_none()).filter(|_| next() % 3 == 0).map(|(t, _)| (*t, Mode::Ref)).collect();
+        bp.push(Reg::Comp { idx: comps.len() });
+        comps.push(CompSpec { kind: CompKind::Pre, inputs, fallible: None, is_async: false, route: None, fw: vec![], gens: vec![] });
+    }
+    bp.push(Reg::Comp { idx: comps.len() });
+    comps.push(CompSpec {
+        kind: CompKind::Handler,
+        inputs: outputs,
+        fallible: None,
+        is_async: next() % 2 == 0,
+        route: Some(RouteSpec { methods: vec!["GET".into()], path: "/h0".into(), path_param_fields: vec![], bulk: false }),
+        fw: vec![],
+        gens: vec![],
+    });
+    AppSpec { peel: false, types, n_errs: 0, comps, bp, note: format!("wild (borrow-checker stress: {n_x} X patterns, {n_chains} capture chains)") }
+}
